@@ -93,6 +93,11 @@ def rand_flat_schema(rng, nmsg):
         impls.append({"name": name, "protocol": "can", "type": name,
                       "fields": [{"name": "id", "value": {"i": rng.choice([0, 1, 2047, rng.randint(0, 2047)])}},
                                  {"name": "device", "value": {"s": "ecu"}}], "signals": []})
+        if rng.random() < 0.25:
+            # the same struct bound a second time under another name and id
+            impls.append({"name": name + "b", "protocol": "can", "type": name,
+                          "fields": [{"name": "id", "value": {"i": rng.randint(0, 2047)}},
+                                     {"name": "device", "value": {"s": "ecu"}}], "signals": []})
     return {"structs": structs, "enums": enums, "impls": impls}
 
 
@@ -183,7 +188,7 @@ def run_c06(tier, seed):
             chk.violation("can_c:%s" % r["status"], {"mode": "T", "schema_text": glue.schema_text(sch)[:3000], "info": r["info"]})
             continue
         for k, (name, v) in enumerate(vals):
-            st = glue.find(sch["structs"], name)
+            st = glue.find(sch["structs"], glue.find(sch["impls"], name)["type"])
             le = r["out"][k].split()
             if not le or le[0] != "E":
                 chk.violation("can_c:driver-crashed", {"mode": "T", "struct": st, "value": v, "output": r["out"][k]})
